@@ -4,6 +4,8 @@
   gen/BroadwordGen.v  all of src/broadword.rs and src/intrinsics.rs as monadic Gallina
   gen/ConstsGen.v     structural constants of the hand-modelled modules
   gen/SerialGen.v     struct layouts and the three method bodies of every `impl Serializable`
+  gen/MethodsGen.v    the loop-free methods of the core modules as monadic Gallina (tied to the hand models
+                      by Proofs/MethodsTie.v)
   gen/fingerprints.json  hash of the normalised token stream of every non-test Rust function
 
 Files are rewritten only when their content changes (so `make` sees stable timestamps).
@@ -585,10 +587,1156 @@ def gen_serial(repo):
 
 
 # ---------------------------------------------------------------------------------------------
+# loop-free methods of the core modules -> gen/MethodsGen.v
+#
+# Translation scheme (the equalities with the hand models are Proofs/MethodsTie.v):
+#
+#  * One definition `<module>_<fn>` per TARGET function, taking the build configuration `c : cfg`, then `self`
+#    (for methods; the hand model's record type for the struct, see RECORDS) and the Rust parameters.
+#    Result types:   T                       -> res T'        (usize -> N, bool, Option<T> -> option T', struct -> record)
+#                    Result<T> (not &mut)    -> res (option T')                    (None = Err)
+#                    &mut self, ()           -> res Rec                            (the new state)
+#                    &mut self, Result<()>   -> res (Rec * bool)                   (new state, returned Ok(())?)
+#  * Expressions are translated left to right into a list of monadic bindings followed by a pure term: every
+#    `+ - * << >>` goes through the checked primitive of Base/Res.v (`add c`, ...), `v[i]` through `idx`, `.unwrap()` /
+#    `.expect()` through `unwrap`, `/` and `%` by a non-zero constant are pure `N.div` / `N.modulo`, otherwise
+#    `div_` / `rem_`.  `a && b` / `a || b` with effects in `b` become `if a then (.. b) else Ok false` (short circuit);
+#    closures only occur as arguments of `map_or` / `filter` / `map` on an Option and become a `match` whose `Some`
+#    branch contains the closure's effects.  `e?` on an Option becomes `match e with None => Ok None | Some x => ..`.
+#  * Statements: `let` -> `let .. in` (or the binder of the last monadic step); `x op= e` evaluates `e` first (Rust's
+#    order for primitive operands) and rebinds `x`.  Mutation of `self` is state passing: `self.f = e`,
+#    `self.v[i] op= e` (idx, then setN), `self.v.push(e)` (`++ [e]`), `*self.v.last_mut().unwrap() op= e`
+#    (assert non-empty, then upd_last), `self.f.mutator(..)` (callee returns the new field value) all rebind the
+#    Coq variable `self` to a new record.  `if c { return v; }` puts the rest of the body in the `else` branch; an
+#    `if`/`else` statement without `return` becomes a join `vars <- (if c then (.. Ok vars) else (.. Ok vars)) ;;` over
+#    the variables assigned in either branch.  An `Err(anyhow!(..))` result is "rejected": `Ok (self, false)` /
+#    `Ok None`; the arguments of the error message must be effect free (they are checked and dropped).
+#  * Callees: a TARGET of the same module (or a TARGET of an earlier module that has no hand-model counterpart)
+#    is called in its generated form; the callees listed in MODEL_CALLEES (loops, other modules) are the hand-model
+#    functions, their signatures are re-read from the Rust source.  Word primitives of broadword.rs are the
+#    spec-level functions (C14 proves the generated broadword code equal to them).
+#  * Anything else in a TARGET function raises ParseError naming the function (exit status 2).  Non-target
+#    functions of the same files are not looked at.
+# ---------------------------------------------------------------------------------------------
+
+# Rust struct -> (record type of the hand model, [(rust field, rust type, projection)]) -- checked against the source
+RECORDS = {
+    "BitVector": ("bitvec", [("words", "Vec<usize>", "bv_words"), ("len", "usize", "bv_len")]),
+    "Rank9SelIndex": ("r9index", [("len", "usize", "r_len"), ("block_rank_pairs", "Vec<usize>", "r_brp"),
+                                  ("select1_hints", "Option<Vec<usize>>", "r_h1"),
+                                  ("select0_hints", "Option<Vec<usize>>", "r_h0")]),
+    "CompactVector": ("compvec", [("chunks", "BitVector", "cv_chunks"), ("len", "usize", "cv_len"),
+                                  ("width", "usize", "cv_width")]),
+    "DArray": ("darray", [("bv", "BitVector", "da_bv"), ("s1", "DArrayIndex", "da_s1"),
+                          ("s0", "Option<DArrayIndex>", "da_s0"), ("r9", "Option<Rank9SelIndex>", "da_r9")]),
+    "DArrayIndex": ("daindex", [("block_inventory", "Vec<isize>", "d_block_inv"),
+                                ("subblock_inventory", "Vec<u16>", "d_sub_inv"),
+                                ("overflow_positions", "Vec<usize>", "d_overflow"),
+                                ("num_positions", "usize", "d_num_positions"), ("over_one", "bool", "d_over_one")]),
+    "EliasFano": ("eliasfano", [("high_bits", "DArray", "ef_high"), ("low_bits", "BitVector", "ef_low"),
+                                ("low_len", "usize", "ef_low_len"), ("universe", "usize", "ef_universe")]),
+    "WaveletMatrix": (None, None),        # only static functions are translated
+}
+
+TYPE_FILES = {
+    "BitVector": "src/bit_vectors/bit_vector.rs",
+    "Rank9SelIndex": "src/bit_vectors/rank9sel/inner.rs",
+    "CompactVector": "src/int_vectors/compact_vector.rs",
+    "DArray": "src/bit_vectors/darray.rs",
+    "DArrayIndex": "src/bit_vectors/darray/inner.rs",
+    "EliasFano": "src/mii_sequences/elias_fano.rs",
+    "WaveletMatrix": "src/char_sequences/wavelet_matrix.rs",
+    "utils": "src/utils.rs",
+}
+
+# (module name, owner: struct or free-function module, constants prefix in ConstsGen.v or None)
+METHOD_MODULES = [
+    ("utils", "utils", None),
+    ("bit_vector", "BitVector", "bit_vector"),
+    ("rank9", "Rank9SelIndex", "rank9"),
+    ("compact_vector", "CompactVector", None),
+    ("wavelet_matrix", "WaveletMatrix", None),
+    ("darray_index", "DArrayIndex", None),
+    ("darray", "DArray", None),
+    ("elias_fano", "EliasFano", "elias_fano"),
+]
+
+# module -> [(trait or None, function)]
+METHOD_TARGETS = {
+    "utils": [(None, "needed_bits"), (None, "ceiled_divide")],
+    "bit_vector": [(None, "words_for"), (None, "with_capacity"), (None, "len"), (None, "num_words"),
+                   (None, "words"), ("NumBits", "num_bits"),
+                   (None, "get_bit"), (None, "set_bit"), (None, "push_bit"), (None, "get_bits"),
+                   (None, "set_bits"), (None, "push_bits"), (None, "get_word64"),
+                   ("Access", "access"), ("Rank", "rank0"), ("NumBits", "num_ones")],
+    "rank9": [(None, "num_ones"), (None, "num_zeros"), (None, "num_blocks"), (None, "block_rank"),
+              (None, "sub_block_ranks"), (None, "sub_block_rank"), (None, "block_rank0"),
+              (None, "rank1"), (None, "rank0")],
+    "compact_vector": [(None, "len"), (None, "width"), (None, "new"), (None, "with_capacity"),
+                       (None, "get_int"), (None, "set_int"), (None, "push_int")],
+    "wavelet_matrix": [(None, "get_msb")],
+    "darray_index": [(None, "num_ones")],
+    "darray": [(None, "len"), (None, "bit_vector"), ("NumBits", "num_bits"), ("NumBits", "num_ones"), ("Access", "access"),
+               ("Rank", "rank1"), ("Rank", "rank0"), ("Select", "select1"), ("Select", "select0")],
+    "elias_fano": [(None, "len"), (None, "universe"), (None, "select"), (None, "delta"), (None, "predecessor"),
+                   (None, "successor")],
+}
+
+# hand-model functions used as callees: (owner, fn) -> ("res", name) monadic `name c recv args` | ("pure", format).
+# The "pure" accessors of structs are themselves TARGETS of their own module: MethodsTie.v proves the generated
+# getter equal to `Ok (projection)`, which is what justifies the entry here.
+MODEL_CALLEES = {
+    ("BitVector", "rank1"): ("res", "BitVector.rank1"),
+    ("BitVector", "get_bits"): ("res", "BitVector.get_bits"),
+    ("BitVector", "set_bits"): ("res", "BitVector.set_bits"),
+    ("BitVector", "push_bits"): ("res", "BitVector.push_bits"),
+    ("BitVector", "access"): ("res", "BitVector.access"),
+    ("BitVector", "num_bits"): ("pure", "(bv_len %s)"),
+    ("BitVector", "len"): ("pure", "(bv_len %s)"),
+    ("BitVector", "words"): ("pure", "(bv_words %s)"),
+    ("Rank9SelIndex", "rank1"): ("res", "Rank9.rank1"),
+    ("Rank9SelIndex", "rank0"): ("res", "Rank9.rank0"),
+    ("DArrayIndex", "select"): ("res", "DArray.da_select"),
+    ("DArrayIndex", "num_ones"): ("pure", "(d_num_positions %s)"),
+    ("BitVector", "predecessor1"): ("res", "BitVector.predecessor1"),
+    ("DArray", "select1"): ("res", "DArray.da_select1"),
+    ("DArray", "bit_vector"): ("pure", "(da_bv %s)"),
+    ("DArray", "num_ones"): ("pure", "(da_num_ones %s)"),
+    ("EliasFano", "rank"): ("res", "EliasFano.ef_rank"),
+    # broadword.rs: spec-level word functions (C14)
+    ("broadword", "msb"): ("pure", "(msb_spec %s)"),
+    ("broadword", "lsb"): ("pure", "(lsb_spec %s)"),
+    ("broadword", "popcount"): ("pure", "(popcN %s)"),
+}
+BROADWORD_SIGS = {"msb": (["usize"], "Option<usize>"), "lsb": (["usize"], "Option<usize>"),
+                  "popcount": (["usize"], "usize")}
+
+COQ_RESERVED = set("""as at cofix else end exists exists2 fix for forall fun if IF in let match mod Prop return Set
+    then Type using where with c add sub mul shl shr wmul wshl not64 idx unwrap assert_ dassert bind lenN nthN setN
+    upd_last b2n popcN msb_spec lsb_spec checked_add div_ rem_ fst snd negb andb orb Some None Ok Panic true false
+    cfg res W MASK64 list option N bool unit tt""".split())
+
+USIZE, BOOL, UNIT = ("usize",), ("bool",), ("unit",)
+
+
+def coq_ident(name):
+    if name in COQ_RESERVED or re.fullmatch(r"t\d+", name):
+        return name + "_"
+    return name
+
+
+def parse_rtype(s, self_name):
+    s = " ".join(s.split())
+    s = re.sub(r"^&\s*('[a-z_]+\s+)?(mut\s+)?", "", s)
+    if s == "usize":
+        return USIZE
+    if s == "bool":
+        return BOOL
+    if s == "()":
+        return UNIT
+    if s in ("isize", "u16"):                 # stored in some records; no operation on them is supported
+        return (s,)
+    m = re.fullmatch(r"(Option|Vec|Result)\s*<(.*)>", s)
+    if m:
+        inner = parse_rtype(m.group(2), self_name)
+        return ({"Option": "opt", "Vec": "vec", "Result": "result"}[m.group(1)], inner)
+    m = re.fullmatch(r"\[(.*)\]", s)
+    if m:
+        return ("vec", parse_rtype(m.group(1), self_name))
+    if s == "Self":
+        if self_name is None:
+            raise ParseError("`Self` outside an impl")
+        return ("struct", self_name)
+    if s in RECORDS:
+        return ("struct", s)
+    raise ParseError("unsupported type %r" % s)
+
+
+def coq_type(t):
+    k = t[0]
+    if k == "usize":
+        return "N"
+    if k == "bool":
+        return "bool"
+    if k == "unit":
+        return "unit"
+    if k == "isize":
+        return "Z"
+    if k == "u16":
+        return "N"
+    if k == "opt":
+        return "(option %s)" % coq_type(t[1])
+    if k == "vec":
+        return "(list %s)" % coq_type(t[1])
+    if k == "struct":
+        rec = RECORDS[t[1]][0]
+        if rec is None:
+            raise ParseError("struct %s has no record in the hand model" % t[1])
+        return rec
+    raise ParseError("type %r has no Coq counterpart" % (t,))
+
+
+def strip_line_comments(src):
+    """remove whole-line comments (doc comments contain `fn main()` examples)"""
+    return re.sub(r"^[ \t]*//[^\n]*$", "", src, flags=re.M)
+
+
+def ite(cond, a, b):
+    """`if cond then (a) else (b)`, on several lines when a branch is long"""
+    if "\n" not in a and "\n" not in b and len(a) + len(b) + len(cond) < 90:
+        return "if %s then (%s) else (%s)" % (cond, a, b)
+    return "if %s then (\n%s\n) else (\n%s\n)" % (cond, indent(a), indent(b))
+
+
+def match_opt(scrut, none, x, some):
+    """`match scrut with None => none | Some x => (some) end`, on several lines when the Some branch is long"""
+    if "\n" not in some and len(scrut) + len(some) < 80:
+        return "match %s with None => %s | Some %s => (%s) end" % (scrut, none, x, some)
+    return "match %s with\n| None => %s\n| Some %s =>\n%s\nend" % (scrut, none, x, indent(some, 4))
+
+
+def render(items, final):
+    """items: ("bind", pattern, term) | ("let", name, term) | ("ifret", cond, term) | ("try", opt term, name, none term)"""
+    lines, closers = [], []
+    for it in items:
+        if it[0] == "bind":
+            term = it[2]
+            if re.match(r"match\b", term) and term.endswith("end") and term.count("match") == 1:
+                term = term.replace("\n", "\n  ")                  # a single closed match needs no parentheses
+            elif "\n" in term or re.match(r"(if|match|let)\b", term) or " <- " in term:
+                term = "(" + term.replace("\n", "\n  ") + ")"
+            lines.append("%s <- %s ;;" % (it[1], term))
+        elif it[0] == "let":
+            lines.append("let %s := %s in" % (it[1], it[2]))
+        elif it[0] == "ifret":
+            if "\n" in it[2]:
+                lines.append("if %s then (\n%s\n) else (" % (it[1], indent(it[2])))
+            else:
+                lines.append("if %s then (%s) else (" % (it[1], it[2]))
+            closers.append(")")
+        elif it[0] == "try":
+            lines.append("match %s with None => %s | Some %s =>" % (it[1], it[3], it[2]))
+            closers.append("end")
+        else:
+            raise ParseError("internal: unknown item %r" % (it,))
+    lines.append(final)
+    if closers:
+        lines.append(" ".join(reversed(closers)))
+    return "\n".join(lines)
+
+
+class MethodsGen:
+    """all target functions of all modules; memoised, callees first"""
+
+    def __init__(self, repo):
+        self.repo = repo
+        self.src = {}          # owner -> source without tests / comment lines
+        self.fns = {}          # owner -> {(trait, name): (params, ret, body)}  (first occurrence wins per key)
+        self.byname = {}       # owner -> {name: [(trait, params, ret, body)]}
+        self.consts = {}       # module -> {NAME: value}
+        self.done = {}         # (module, fn) -> dict(name, text, pure, sig)
+        self.order = []
+        self.stack = []
+        self.module_of_owner = {o: m for m, o, _ in METHOD_MODULES}
+        self.const_prefix = {m: p for m, _, p in METHOD_MODULES}
+        for owner, path in TYPE_FILES.items():
+            src = strip_line_comments(rp.strip_tests(open(os.path.join(repo, path)).read()))
+            self.src[owner] = src
+            table, names = {}, {}
+            if owner[0].islower():          # free functions
+                for n, p, r, b, _ in rp.functions(src):
+                    table.setdefault((None, n), (p, r, b))
+                    names.setdefault(n, []).append((None, p, r, b))
+            else:
+                for trait, ty, body in rp.impl_blocks(src):
+                    if ty != owner:
+                        continue
+                    for n, p, r, b, _ in rp.functions(body):
+                        if (trait, n) in table:
+                            raise ParseError("%s: two definitions of %s" % (owner, n))
+                        table[(trait, n)] = (p, r, b)
+                        names.setdefault(n, []).append((trait, p, r, b))
+            self.fns[owner], self.byname[owner] = table, names
+        for mod, owner, prefix in METHOD_MODULES:
+            env = {}
+            if prefix is not None:
+                for name, ty, init in rp.top_level_consts(self.src[owner]):
+                    if ty == "usize":
+                        env[name] = eval_const_src(init, env)
+            self.consts[mod] = env
+        # the record layouts assumed above must be the struct declarations of the source
+        for owner, (rec, fields) in RECORDS.items():
+            if fields is None:
+                continue
+            decl, _ = parse_struct(self.src[owner], owner)
+            if [(f, t.replace(" ", "")) for f, t in decl] != [(f, t) for f, t, _ in fields]:
+                raise ParseError("struct %s changed: source has %r, the model record %s has %r" % (
+                    owner, decl, rec, [(f, t) for f, t, _ in fields]))
+
+    # -- lookups -------------------------------------------------------------------------------
+    def find_fn(self, owner, name, trait="?"):
+        """(trait, params, ret, body) of the unique function `name` of `owner` (any impl block unless trait given)"""
+        cands = self.byname.get(owner, {}).get(name, [])
+        if trait != "?":
+            cands = [x for x in cands if x[0] == trait]
+        if len(cands) != 1:
+            raise ParseError("%s::%s: %d definitions found" % (owner, name, len(cands)))
+        return cands[0]
+
+    def signature(self, owner, name, trait="?"):
+        tr, params, ret, _ = self.find_fn(owner, name, trait)
+        self_name = owner if owner[0].isupper() else None
+        ptys = [(n, parse_rtype(t, self_name)) for n, t in rp.typed_params(params)]
+        rty = parse_rtype(ret, self_name) if ret else UNIT
+        return rp.self_kind(params), ptys, rty
+
+    def is_target(self, mod, name):
+        return any(n == name for _, n in METHOD_TARGETS[mod])
+
+    def has_derive_default(self, owner):
+        m = re.search(r"#\[derive\(([^)]*)\)\]\s*pub struct %s\b" % owner, self.src[owner])
+        return bool(m and "Default" in [x.strip() for x in m.group(1).split(",")])
+
+    def default_term(self, ty):
+        k = ty[0]
+        if k == "usize":
+            return "0"
+        if k == "bool":
+            return "false"
+        if k == "vec":
+            return "[]"
+        if k == "opt":
+            return "None"
+        if k == "struct":
+            owner = ty[1]
+            rec, fields = RECORDS[owner]
+            if fields is None or not self.has_derive_default(owner):
+                raise ParseError("%s::default() is not a derived Default of a modelled struct" % owner)
+            return "{| %s |}" % "; ".join("%s := %s" % (p, self.default_term(parse_rtype(t, owner)))
+                                          for _, t, p in fields)
+        raise ParseError("no default for %r" % (ty,))
+
+    # -- driver --------------------------------------------------------------------------------
+    def translate(self, mod, name):
+        key = (mod, name)
+        if key in self.done:
+            return self.done[key]
+        if key in self.stack:
+            raise ParseError("recursive call cycle through %s::%s" % key)
+        self.stack.append(key)
+        try:
+            owner = dict((m, o) for m, o, _ in METHOD_MODULES)[mod]
+            traits = [t for t, n in METHOD_TARGETS[mod] if n == name]
+            try:
+                trait, params, ret, body = self.find_fn(owner, name, traits[0])
+                tr = FnBody(self, mod, owner, name, params, ret)
+                text, pure = tr.run(rp.parse_fn_body(body))
+            except (ParseError, KeyError, IndexError, TypeError, AttributeError, ValueError) as ex:
+                if isinstance(ex, ParseError) and str(ex).startswith("target "):
+                    raise
+                what = ex if isinstance(ex, ParseError) else "outside the supported subset (%s: %s)" % (
+                    type(ex).__name__, ex)
+                raise ParseError("target %s::%s (%s): %s" % (mod, name, TYPE_FILES[owner], what))
+            info = dict(name="%s_%s" % (mod, name), text=text, pure=pure)
+            self.done[key] = info
+            self.order.append(key)
+            return info
+        finally:
+            self.stack.pop()
+
+    def run(self):
+        for mod, _, _ in METHOD_MODULES:
+            for _, name in METHOD_TARGETS[mod]:
+                self.translate(mod, name)
+        return [self.done[k]["text"] for k in self.order]
+
+
+class FnBody:
+    """translation of one function body (see the scheme at the top of this section)"""
+
+    def __init__(self, gen, mod, owner, name, params_src, ret_src):
+        self.gen, self.mod, self.owner, self.name = gen, mod, owner, name
+        self.self_name = owner if owner[0].isupper() else None
+        self.kind = rp.self_kind(params_src)
+        self.params = [(n, parse_rtype(t, self.self_name)) for n, t in rp.typed_params(params_src)]
+        self.ret = parse_rtype(ret_src, self.self_name) if ret_src else UNIT
+        self.counter = 0
+        self.env = {}                 # rust name -> (coq name, type)
+        self.assigned = [set()]       # per open scope: outer variables rebound in it
+        self.declared = [set()]       # per open scope: variables introduced by `let` in it
+        self.value_scope = 0          # > 0: inside a conditional *expression*: no return / ? / assignment
+        self.join_scope = 0           # > 0: inside an if/else statement without return: no return / ?
+        if self.kind == "move":
+            raise ParseError("methods taking `self` by value are not supported")
+        if self.kind != "static":
+            self.env["self"] = ("self", ("struct", owner))
+        for n, t in self.params:
+            self.env[n] = (coq_ident(n), t)
+        if self.kind == "mut" and self.ret not in (UNIT, ("result", UNIT)):
+            raise ParseError("&mut self methods must return () or Result<()>")
+
+    # -- small helpers -------------------------------------------------------------------------
+    def fresh(self):
+        self.counter += 1
+        return "t%d" % self.counter
+
+    def bind(self, out, term):
+        t = self.fresh()
+        out.append(("bind", t, term))
+        return t
+
+    def const_value(self, e):
+        """value of a constant expression (literals and constants of this module), or None"""
+        try:
+            return const_eval(e, self.gen.consts[self.mod])
+        except ParseError:
+            return None
+
+    def record_fields(self, owner):
+        rec, fields = RECORDS.get(owner, (None, None))
+        if fields is None:
+            raise ParseError("fields of %s are not modelled" % owner)
+        return fields
+
+    def rebuild(self, owner, term, field, new):
+        return "{| %s |}" % "; ".join("%s := %s" % (p, new if f == field else "%s %s" % (p, term))
+                                      for f, _, p in self.record_fields(owner))
+
+    def assign_var(self, name, term, out):
+        if self.value_scope:
+            raise ParseError("assignment to `%s` inside a conditional expression" % name)
+        if name not in self.env:
+            raise ParseError("assignment to unknown variable %s" % name)
+        cname, ty = self.env[name]
+        last = out[-1] if out else None
+        if last and last[0] == "bind" and last[1] == term and re.fullmatch(r"t\d+", term):
+            out[-1] = ("bind", cname, last[2])          # `x <- m ;;` instead of `t <- m ;; let x := t in`
+        else:
+            out.append(("let", cname, term))
+        if name not in self.declared[-1]:
+            self.assigned[-1].add(name)
+
+    def set_place(self, place, new, out):
+        if place[0] == "var":
+            return self.assign_var(place[1], new, out)
+        if place[0] == "field":
+            scratch = []
+            qt, qty = self.expr(place[1], scratch)
+            if scratch or qty[0] != "struct":
+                raise ParseError("unsupported place expression")
+            return self.set_place(place[1], self.rebuild(qty[1], qt, place[2], new), out)
+        raise ParseError("unsupported place expression")
+
+    def scoped(self, fn):
+        """run fn with a copy of the environment and a fresh set of assigned variables"""
+        saved = dict(self.env)
+        self.assigned.append(set())
+        self.declared.append(set())
+        try:
+            r = fn()
+            return r, self.assigned[-1], dict(self.env)
+        finally:
+            self.assigned.pop()
+            self.declared.pop()
+            self.env = saved
+
+    def value_block(self, fn):
+        """fn(out) -> (term, ty) in a conditional expression scope; returns (out, term, ty)"""
+        self.value_scope += 1
+        try:
+            out = []
+            (t, ty), _, _ = self.scoped(lambda: fn(out))
+            return out, t, ty
+        finally:
+            self.value_scope -= 1
+
+    @staticmethod
+    def res_of(out, t):
+        """`res` term computing the pure term t after the bindings of out"""
+        if out and out[-1][0] == "bind" and out[-1][1] == t and re.fullmatch(r"t\d+", t):
+            return render(out[:-1], out[-1][2])
+        return render(out, "Ok %s" % t)
+
+    # -- expressions: returns (pure Coq term, type); effects are appended to out ------------------
+    def expr(self, e, out):
+        k = e[0]
+        if k == "num":
+            return str(e[1]), USIZE
+        if k == "var":
+            n = e[1]
+            if n in self.env:
+                cn, ty = self.env[n]
+                if ty[0] == "alias_last":
+                    raise ParseError("`%s` (a &mut into a vector) can only be assigned through" % n)
+                return cn, ty
+            if n == "None":
+                return "None", ("opt", None)
+            if n in ("true", "false"):
+                return n, BOOL
+            if n in self.gen.consts[self.mod]:
+                return "%s_%s" % (self.gen.const_prefix[self.mod], n), USIZE
+            raise ParseError("unknown identifier %s" % n)
+        if k == "path":
+            if e[1] == ["usize", "MAX"]:
+                return "MASK64", USIZE
+            raise ParseError("unsupported path %s" % "::".join(e[1]))
+        if k == "cast":
+            t, ty = self.expr(e[1], out)
+            if e[2] != "usize":
+                raise ParseError("unsupported cast to %s" % e[2])
+            if ty == BOOL:
+                return "(b2n %s)" % t, USIZE
+            if ty == USIZE:
+                return t, USIZE
+            raise ParseError("unsupported cast from %r" % (ty,))
+        if k == "ref":
+            return self.expr(e[1], out)
+        if k == "un":
+            t, ty = self.expr(e[2], out)
+            if e[1] == "!" and ty == BOOL:
+                return "(negb %s)" % t, BOOL
+            if e[1] == "!" and ty == USIZE:
+                return "(not64 %s)" % t, USIZE
+            raise ParseError("unsupported unary %s on %r" % (e[1], ty))
+        if k == "bin":
+            return self.binop(e, out)
+        if k == "field":
+            t, ty = self.expr(e[1], out)
+            if ty[0] != "struct":
+                raise ParseError("field access on %r" % (ty,))
+            for f, fty, proj in self.record_fields(ty[1]):
+                if f == e[2]:
+                    return "(%s %s)" % (proj, t), parse_rtype(fty, ty[1])
+            raise ParseError("%s has no field %s" % (ty[1], e[2]))
+        if k == "index":
+            vt, vty = self.expr(e[1], out)
+            it, ity = self.expr(e[2], out)
+            if vty[0] != "vec" or ity != USIZE or vty[1] != USIZE:
+                raise ParseError("unsupported indexing")
+            return self.bind(out, "idx 0 %s %s" % (vt, it)), USIZE
+        if k == "tuple" and not e[1]:
+            return "tt", UNIT
+        if k == "call":
+            return self.call(e, out)
+        if k == "mcall":
+            return self.mcall(e, out)
+        if k == "try":
+            t, ty = self.expr(e[1], out)
+            if ty[0] != "opt" or self.ret[0] != "opt" or self.kind == "mut":
+                raise ParseError("`?` is supported on an Option in a function returning an Option")
+            if self.value_scope or self.join_scope:
+                raise ParseError("`?` inside a conditional expression or a joined if/else")
+            v = self.fresh()
+            out.append(("try", t, v, "Ok None"))
+            return v, ty[1]
+        if k == "structlit":
+            owner = self.owner if e[1] == "Self" else e[1]
+            fields = self.record_fields(owner)
+            given = {}
+            for f, fe in e[2]:                       # source order = evaluation order
+                if f in given:
+                    raise ParseError("field %s given twice" % f)
+                given[f] = self.expr(fe, out)[0]
+            if sorted(given) != sorted(f for f, _, _ in fields):
+                raise ParseError("struct literal of %s does not give exactly its fields" % owner)
+            return "{| %s |}" % "; ".join("%s := %s" % (p, given[f]) for f, _, p in fields), ("struct", owner)
+        if k in ("if", "block"):
+            return self.cond_value(e, out)
+        raise ParseError("unsupported expression %s" % k)
+
+    def cond_value(self, e, out):
+        """if/else or block used as a value"""
+        if e[0] == "block":
+            if not e[1] and e[2] is not None:
+                return self.expr(e[2], out) if e[2][0] != "if" else self.cond_value(e[2], out)
+
+            if self.contains_return(e):
+                raise ParseError("return / ? inside a block expression")
+
+            def body(o):
+                self.stmts(e[1], o)
+                if e[2] is None:
+                    raise ParseError("block without value")
+                return self.expr(e[2], o)
+            saved = dict(self.env)
+            self.declared.append(set())
+            try:                                       # an unconditional block: effects go straight to out
+                r = body(out)
+                clash = sorted(n for n in self.declared[-1] if n in saved)
+                if clash:                              # the Coq `let` would stay in scope after the block
+                    raise ParseError("block-local `%s` shadows an outer variable" % clash[0])
+                return r
+            finally:
+                self.declared.pop()
+                self.env = saved
+        cond, cty = self.expr(e[1], out)
+        if cty != BOOL or e[3] is None:
+            raise ParseError("if without else (or a non-boolean condition) in value position")
+        o1, t1, ty1 = self.value_block(lambda o: self.expr(e[2], o))
+        o2, t2, ty2 = self.value_block(lambda o: self.expr(e[3], o))
+        ty = ty1 if ty1 != ("opt", None) else ty2
+        if not o1 and not o2:
+            return "(if %s then %s else %s)" % (cond, t1, t2), ty
+        return self.bind(out, ite(cond, self.res_of(o1, t1), self.res_of(o2, t2))), ty
+
+    def binop(self, e, out):
+        op = e[1]
+        if op in ("&&", "||"):
+            a, aty = self.expr(e[2], out)
+            o2, b, bty = self.value_block(lambda o: self.expr(e[3], o))
+            if aty != BOOL or bty != BOOL:
+                raise ParseError("%s on non-booleans" % op)
+            if not o2:
+                return "(%s %s %s)" % ("andb" if op == "&&" else "orb", a, b), BOOL
+            rhs = self.res_of(o2, b)                 # short circuit: the effects of b stay conditional
+            if op == "&&":
+                return self.bind(out, "if %s then (%s) else Ok false" % (a, rhs)), BOOL
+            return self.bind(out, "if %s then Ok true else (%s)" % (a, rhs)), BOOL
+        if op in ("..", "..="):
+            a, aty = self.expr(e[2], out)
+            b, bty = self.expr(e[3], out)
+            if aty != USIZE or bty != USIZE:
+                raise ParseError("range over non-usize")
+            return None, ("range", a, b, op == "..=")
+        a, aty = self.expr(e[2], out)
+        b, bty = self.expr(e[3], out)
+        return self.apply_op(op, a, aty, b, bty, e[3], out)
+
+    def apply_op(self, op, a, aty, b, bty, b_ast, out):
+        if aty != USIZE or bty != USIZE:
+            raise ParseError("operator %s on %r, %r" % (op, aty, bty))
+        if op in ARITH:
+            return self.bind(out, "%s %s %s" % (ARITH[op], a, b)), USIZE
+        if op in ("/", "%"):
+            v = self.const_value(b_ast) if b_ast is not None else None
+            if v is not None and v != 0:             # a non-zero constant divisor cannot panic
+                return "(%s %s %s)" % ("N.div" if op == "/" else "N.modulo", a, b), USIZE
+            return self.bind(out, "%s %s %s" % ("div_" if op == "/" else "rem_", a, b)), USIZE
+        if op in BITOPS:
+            return "(%s %s %s)" % (BITOPS[op], a, b), USIZE
+        if op in CMPS:
+            if op in (">", ">="):
+                a, b = b, a
+            return "(" + CMPS[op] % (a, b) + ")", BOOL
+        raise ParseError("unsupported operator %s" % op)
+
+    # -- calls -----------------------------------------------------------------------------------
+    def call(self, e, out):
+        f, args = e[1], e[2]
+        if f == ("var", "Some"):
+            if len(args) != 1:
+                raise ParseError("Some takes one argument")
+            t, ty = self.expr(args[0], out)
+            return "(Some %s)" % t, ("opt", ty)
+        if f[0] == "var" and f[1] in ("Ok", "Err"):
+            raise ParseError("%s(..) is only supported as the result of the function" % f[1])
+        if f[0] != "path" or len(f[1]) != 2:
+            raise ParseError("unsupported callee")
+        owner, name = f[1]
+        if owner == "Self":
+            owner = self.owner
+        if owner == "Vec" and name == "with_capacity":
+            if len(args) != 1 or self.expr(args[0], out)[1] != USIZE:    # evaluated for its effects only
+                raise ParseError("Vec::with_capacity takes a usize")
+            return "[]", ("vec", None)                                    # allocation is not modelled
+        if name == "default" and not args and owner in RECORDS:
+            return self.gen.default_term(("struct", owner)), ("struct", owner)
+        return self.call_fn(owner, name, None, args, out)
+
+    def resolve(self, owner, name):
+        """("gen", coq name, sig) | ("res", coq name, sig) | ("pure", format, sig)"""
+        gen = self.gen
+        mod = gen.module_of_owner.get(owner)
+        if mod == self.mod and gen.is_target(mod, name):
+            info = gen.translate(mod, name)
+            return "gen", info["name"], gen.signature(owner, name, [t for t, n in METHOD_TARGETS[mod] if n == name][0])
+        if (owner, name) in MODEL_CALLEES:
+            how, what = MODEL_CALLEES[(owner, name)]
+            if owner == "broadword":
+                ps, r = BROADWORD_SIGS[name]
+                sig = ("static", [("x", parse_rtype(p, None)) for p in ps], parse_rtype(r, None))
+            else:
+                sig = gen.signature(owner, name)
+            return how, what, sig
+        if mod is not None and gen.is_target(mod, name):      # target of another module without model counterpart
+            info = gen.translate(mod, name)
+            return "gen", info["name"], gen.signature(owner, name, [t for t, n in METHOD_TARGETS[mod] if n == name][0])
+        raise ParseError("call to %s::%s, which is neither a translated function nor a known model function" % (owner, name))
+
+    def call_fn(self, owner, name, recv, args, out, recv_place=None):
+        """recv: None (static) or (term, type) already evaluated"""
+        how, what, (skind, ptys, rty) = self.resolve(owner, name)
+        if (recv is None) != (skind == "static"):
+            raise ParseError("%s::%s: receiver does not match its signature" % (owner, name))
+        if len(args) != len(ptys):
+            raise ParseError("%s::%s: wrong number of arguments" % (owner, name))
+        ats = []
+        for a, (pn, pty) in zip(args, ptys):
+            t, ty = self.expr(a, out)
+            if ty != pty and not (ty[0] == "opt" and ty[1] is None and pty[0] == "opt"):
+                raise ParseError("%s::%s: argument %s has type %r, expected %r" % (owner, name, pn, ty, pty))
+            ats.append(t)
+        allargs = ([recv[0]] if recv is not None else []) + ats
+        if how == "pure":
+            if skind == "mut":
+                raise ParseError("pure model accessor for a &mut method")
+            return what % " ".join(allargs), rty
+        callterm = "%s c %s" % (what, " ".join(allargs)) if allargs else "%s c" % what
+        if skind == "mut":
+            if recv_place is None:
+                raise ParseError("%s::%s mutates its receiver, which is not a place" % (owner, name))
+            r = self.bind(out, callterm)
+            if rty == UNIT:
+                self.set_place(recv_place, r, out)
+                return "tt", UNIT
+            if rty == ("result", UNIT):
+                self.set_place(recv_place, "(fst %s)" % r, out)
+                return "(snd %s)" % r, rty
+            raise ParseError("%s::%s: unsupported result type of a &mut method" % (owner, name))
+        if rty[0] == "result":
+            if rty[1] == UNIT:
+                raise ParseError("Result<()> of a non-mutating method")
+            return self.bind(out, callterm), ("result", rty[1])          # represented as an option
+        return self.bind(out, callterm), rty
+
+    def closure_arg(self, e, nparams):
+        if e[0] != "closure" or len(e[1]) != nparams:
+            raise ParseError("expected a closure with %d parameter(s)" % nparams)
+        return e
+
+    def closure_body(self, clo, pty):
+        """(out, term, ty, coq name of the parameter) of a one-parameter closure applied under a match"""
+        name = clo[1][0]
+
+        def body(o):
+            self.env[name] = (coq_ident(name), pty)
+            return self.expr(clo[2], o)
+        o, t, ty = self.value_block(body)
+        return o, t, ty, coq_ident(name)
+
+    def mcall(self, e, out):
+        recv_ast, name, args = e[1], e[2], e[3]
+        # `<vec place>.last_mut().unwrap()`: a &mut to the last element
+        if name in ("unwrap", "expect") and recv_ast[0] == "mcall" and recv_ast[2] == "last_mut":
+            place = recv_ast[1]
+            vt, vty = self.expr(place, out)
+            if vty[0] != "vec" or recv_ast[3]:
+                raise ParseError("last_mut() on a non-vector")
+            out.append(("bind", "_", "assert_ (negb (N.eqb (lenN %s) 0))" % vt))
+            return None, ("alias_last", place)
+        rt, rty = self.expr(recv_ast, out)
+        k = rty[0]
+        if k == "struct":
+            return self.call_fn(rty[1], name, (rt, rty), args, out, recv_place=recv_ast)
+        if k == "vec":
+            if name == "len" and not args:
+                return "(lenN %s)" % rt, USIZE
+            if name == "is_empty" and not args:
+                return "(N.eqb (lenN %s) 0)" % rt, BOOL
+            if name == "push" and len(args) == 1:
+                t, ty = self.expr(args[0], out)
+                if ty != rty[1]:
+                    raise ParseError("push of %r onto %r" % (ty, rty))
+                self.set_place(recv_ast, "(%s ++ [%s])" % (rt, t), out)
+                return "tt", UNIT
+            raise ParseError("unsupported Vec method .%s()" % name)
+        if k == "opt":
+            if name in ("unwrap", "expect"):
+                if name == "expect" and not (len(args) == 1 and args[0][0] == "str"):
+                    raise ParseError("expect takes a string literal")
+                if name == "unwrap" and args:
+                    raise ParseError("unwrap takes no argument")
+                return self.bind(out, "unwrap %s" % rt), rty[1]
+            if name == "as_ref" and not args:
+                return rt, rty
+            if name in ("is_some", "is_none") and not args:
+                a, b = ("true", "false") if name == "is_some" else ("false", "true")
+                return "(match %s with Some _ => %s | None => %s end)" % (rt, a, b), BOOL
+            if name == "map_or" and len(args) == 2:
+                d, dty = self.expr(args[0], out)                         # the default is evaluated eagerly
+                o, t, ty, x = self.closure_body(self.closure_arg(args[1], 1), rty[1])
+                if ty != dty:
+                    raise ParseError("map_or branches of different types")
+                if not o:
+                    return "(match %s with None => %s | Some %s => %s end)" % (rt, d, x, t), ty
+                return self.bind(out, match_opt(rt, "Ok %s" % d, x, self.res_of(o, t))), ty
+            if name == "filter" and len(args) == 1:
+                o, t, ty, x = self.closure_body(self.closure_arg(args[0], 1), rty[1])
+                if ty != BOOL:
+                    raise ParseError("filter with a non-boolean closure")
+                keep = "(if %s then Some %s else None)" % (t, x)
+                if not o:
+                    return "(match %s with None => None | Some %s => %s end)" % (rt, x, keep), rty
+                return self.bind(out, match_opt(rt, "Ok None", x, self.res_of(o, keep))), rty
+            if name == "map" and len(args) == 1:
+                o, t, ty, x = self.closure_body(self.closure_arg(args[0], 1), rty[1])
+                if not o:
+                    return "(match %s with None => None | Some %s => Some %s end)" % (rt, x, t), ("opt", ty)
+                return self.bind(out, match_opt(rt, "Ok None", x, self.res_of(o, "(Some %s)" % t))), ("opt", ty)
+            raise ParseError("unsupported Option method .%s()" % name)
+        if k == "result":
+            if name in ("unwrap", "expect"):
+                if rty[1] == UNIT:
+                    out.append(("bind", "_", "assert_ %s" % rt))
+                    return "tt", UNIT
+                return self.bind(out, "unwrap %s" % rt), rty[1]
+            raise ParseError("unsupported Result method .%s()" % name)
+        if k == "usize":
+            ats = [self.expr(a, out) for a in args]
+            if any(ty != USIZE for _, ty in ats):
+                raise ParseError(".%s() with a non-usize argument" % name)
+            if name == "checked_add" and len(ats) == 1:
+                return "(checked_add %s %s)" % (rt, ats[0][0]), ("opt", USIZE)
+            if name == "saturating_add" and len(ats) == 1:
+                return "(N.min (%s + %s) MASK64)" % (rt, ats[0][0]), USIZE
+            if name in ("wrapping_mul", "wrapping_shl") and len(ats) == 1:
+                return "(%s %s %s)" % (METHODS[name][0], rt, ats[0][0]), USIZE
+            raise ParseError("unsupported usize method .%s()" % name)
+        if k == "range":
+            if name == "contains" and len(args) == 1:
+                t, ty = self.expr(args[0], out)
+                if ty != USIZE:
+                    raise ParseError("contains on a non-usize")
+                hi = "N.leb %s %s" % (t, rty[2]) if rty[3] else "N.ltb %s %s" % (t, rty[2])
+                return "(andb (N.leb %s %s) (%s))" % (rty[1], t, hi), BOOL
+            raise ParseError("unsupported range method .%s()" % name)
+        raise ParseError("method .%s() on %r" % (name, rty))
+
+    # -- statements --------------------------------------------------------------------------------
+    def stmts(self, stmts, out):
+        """returns True when the statement list ended with `return` (out then ends with the ("final", term) marker)"""
+        for i, s in enumerate(stmts):
+            if self.stmt(s, out):
+                if i != len(stmts) - 1:
+                    raise ParseError("code after return")
+                return True
+        return False
+
+    def declare(self, name, term, ty, out):
+        cname = coq_ident(name)
+        self.env[name] = (cname, ty)
+        self.declared[-1].add(name)
+        last = out[-1] if out else None
+        if last and last[0] == "bind" and last[1] == term and re.fullmatch(r"t\d+", term):
+            out[-1] = ("bind", cname, last[2])
+        else:
+            out.append(("let", cname, term))
+
+    def stmt(self, s, out):
+        k = s[0]
+        if k == "let":
+            t, ty = self.expr(s[3], out)
+            if ty[0] == "alias_last":
+                self.env[s[1]] = (None, ty)
+                return False
+            if ty[0] == "range" or t is None:
+                raise ParseError("unsupported let")
+            self.declare(s[1], t, ty, out)
+            return False
+        if k == "lettuple":
+            if s[2][0] != "tuple" or len(s[2][1]) != len(s[1]):
+                raise ParseError("tuple pattern needs a tuple literal of the same length")
+            vals = [self.expr(x, out) for x in s[2][1]]          # all components first, then the bindings
+            for i, n in enumerate(s[1]):
+                for t, _ in vals[i + 1:]:
+                    if re.search(r"\b%s\b" % re.escape(coq_ident(n)), t):
+                        raise ParseError("tuple pattern rebinds `%s`, which a later component uses" % n)
+            for n, (t, ty) in zip(s[1], vals):
+                self.declare(n, t, ty, out)
+            return False
+        if k == "assign":
+            t, ty = self.expr(s[3], out)                          # right operand first
+            if s[2] is not None:
+                cn, vty = self.env.get(s[1], (None, None))
+                if cn is None:
+                    raise ParseError("assignment to unknown variable %s" % s[1])
+                t, ty = self.apply_op(s[2], cn, vty, t, ty, s[3], out)
+            self.assign_var(s[1], t, out)
+            return False
+        if k == "assignp":
+            self.assign_place(s[1], s[2], s[3], out)
+            return False
+        if k == "return":
+            out[:] = [("final", self.result(s[1], out))]          # result() has consumed the bindings of out
+            return True
+        if k == "expr":
+            e = s[1]
+            if e[0] == "macro":
+                self.assert_macro(e, out)
+                return False
+            if e[0] == "if":
+                return self.if_stmt(e, out)
+            if e[0] == "block":
+                raise ParseError("nested block statement")
+            self.expr(e, out)                                     # evaluated for its effects
+            return False
+        raise ParseError("unsupported statement kind %s" % k)
+
+    def assert_macro(self, e, out):
+        if e[1] not in ("debug_assert", "assert") or not e[2]:
+            raise ParseError("unsupported macro %s!" % e[1])
+        o, cond, cty = self.value_block(lambda o: self.expr(e[2][0], o))
+        if cty != BOOL:
+            raise ParseError("%s! of a non-boolean" % e[1])
+        if e[1] == "assert":
+            out.extend(o)
+            out.append(("bind", "_", "assert_ %s" % cond))
+        elif not o:
+            out.append(("bind", "_", "dassert c %s" % cond))
+        else:                                                     # the condition is not evaluated in release builds
+            out.append(("bind", "_", "if dbg c then (%s) else Ok tt" % render(o, "assert_ %s" % cond)))
+
+    def assign_place(self, lhs, op, rhs, out):
+        if op is not None and op not in BITOPS and op not in ARITH:
+            raise ParseError("unsupported compound assignment %s=" % op)
+        t, ty = self.expr(rhs, out)                               # right operand first (primitive operands)
+        if lhs[0] == "un" and lhs[1] == "*" and lhs[2][0] == "var":
+            alias = self.env.get(lhs[2][1], (None, ("none",)))[1]
+            if alias[0] != "alias_last" or ty != USIZE:
+                raise ParseError("unsupported assignment through a reference")
+            if op is None:
+                f = "(fun _ => %s)" % t
+            elif op in BITOPS:
+                f = "(fun w => %s w %s)" % (BITOPS[op], t)
+            else:
+                raise ParseError("checked arithmetic through a reference")
+            vt, _ = self.expr(alias[1], [])
+            return self.set_place(alias[1], "(upd_last %s %s)" % (f, vt), out)
+        if lhs[0] == "index":
+            scratch = []
+            vt, vty = self.expr(lhs[1], scratch)
+            if scratch or vty != ("vec", USIZE) or ty != USIZE:
+                raise ParseError("unsupported indexed assignment")
+            it, ity = self.expr(lhs[2], out)
+            if ity != USIZE:
+                raise ParseError("non-usize index")
+            if op is None:
+                out.append(("bind", "_", "idx 0 %s %s" % (vt, it)))
+                new = t
+            else:
+                old = self.bind(out, "idx 0 %s %s" % (vt, it))
+                new, _ = self.apply_op(op, old, USIZE, t, USIZE, rhs, out)
+            return self.set_place(lhs[1], "(setN %s %s %s)" % (vt, it, new), out)
+        if lhs[0] == "field":
+            if op is not None:
+                cur, cty = self.expr(lhs, out)
+                t, ty = self.apply_op(op, cur, cty, t, ty, rhs, out)
+            return self.set_place(lhs, t, out)
+        raise ParseError("unsupported assignment target")
+
+    @staticmethod
+    def ends_with_return(block):
+        return bool(block[1]) and block[1][-1][0] == "return" and block[2] is None
+
+    @classmethod
+    def contains_return(cls, node):
+        if isinstance(node, tuple):
+            if node and node[0] in ("return", "try"):
+                return True
+            return any(cls.contains_return(x) for x in node)
+        if isinstance(node, list):
+            return any(cls.contains_return(x) for x in node)
+        return False
+
+    def if_stmt(self, e, out):
+        """`if` in statement position; returns True if both branches return"""
+        cond, cty = self.expr(e[1], out)
+        if cty != BOOL:
+            raise ParseError("non-boolean condition")
+        then, els = e[2], e[3]
+        if els is not None and els[0] == "block" and not els[1] and els[2] is not None and els[2][0] == "if":
+            els = ("block", [("expr", els[2])], None)            # else if
+        if self.ends_with_return(then) and els is None:
+            if self.value_scope or self.join_scope:
+                raise ParseError("return inside a conditional expression or a joined if/else")
+            (term, _, _) = self.scoped(lambda: self.body_term(then[1], None))
+            out.append(("ifret", cond, term))
+            return False
+        if self.contains_return(then) or self.contains_return(els):
+            if els is not None and self.ends_with_return(then) and self.ends_with_return(els) \
+                    and not (self.value_scope or self.join_scope):
+                (t1, _, _) = self.scoped(lambda: self.body_term(then[1], None))
+                (t2, _, _) = self.scoped(lambda: self.body_term(els[1], None))
+                out[:] = [("final", render(out, ite(cond, t1, t2)))]
+                return True
+            raise ParseError("unsupported control flow (return / ? inside one branch of an if/else)")
+        # join: neither branch returns
+        self.join_scope += 1
+        try:
+            def branch(blk):
+                o = []
+                if blk is not None:
+                    self.stmts(blk[1], o)
+                    if blk[2] is not None:
+                        if blk[2][0] == "if":
+                            self.if_stmt(blk[2], o)
+                        else:
+                            t, ty = self.expr(blk[2], o)
+                            if ty != UNIT:
+                                raise ParseError("value of an if statement is dropped")
+                return o
+            outer = dict(self.env)
+            (o1, a1, env1) = self.scoped(lambda: branch(then))
+            (o2, a2, env2) = self.scoped(lambda: branch(els))
+        finally:
+            self.join_scope -= 1
+        names = sorted(n for n in (a1 | a2) if n in outer)
+        if self.value_scope and names:
+            raise ParseError("assignment inside a conditional expression")
+
+        def tail(env):
+            vals = [env[n][0] for n in names]
+            if not vals:
+                return "Ok tt"
+            return "Ok %s" % (vals[0] if len(vals) == 1 else "(" + ", ".join(vals) + ")")
+        t1, t2 = render(o1, tail(env1)), render(o2, tail(env2))
+        cnames = [outer[n][0] for n in names]
+        pat = "_" if not cnames else cnames[0] if len(cnames) == 1 else "'(" + ", ".join(cnames) + ")"
+        out.append(("bind", pat, ite(cond, t1, t2)))
+        for n in names:
+            if n not in self.declared[-1]:
+                self.assigned[-1].add(n)
+        return False
+
+    # -- results ---------------------------------------------------------------------------------
+    def check_error_value(self, e):
+        """Err(anyhow!(fmt, args..)): the arguments must be effect free; they are dropped"""
+        if e[0] != "macro" or e[1] != "anyhow" or not e[2] or e[2][0][0] != "str":
+            raise ParseError("error values must be anyhow!(\"..\", ..)")
+        for a in e[2][1:]:
+            o, t, ty = self.value_block(lambda o: self.expr(a, o))
+            for it in o:
+                m = re.match(r"([A-Za-z_0-9]+) c ", it[2]) if it[0] == "bind" else None
+                if not (m and any(d["name"] == m.group(1) and d["pure"] for d in self.gen.done.values())):
+                    raise ParseError("argument of an error message has effects")
+
+    def result(self, e, out):
+        """`res` term for the function result e (None: no value), after the bindings of out"""
+        ret, mut = self.ret, self.kind == "mut"
+        if e is not None and e[0] == "block":
+            return self.body_term(e[1], e[2], out)
+        if e is not None and e[0] == "if" and e[3] is not None:
+            cond, cty = self.expr(e[1], out)
+            if cty != BOOL:
+                raise ParseError("non-boolean condition")
+            (t1, _, _) = self.scoped(lambda: self.result(e[2], []))
+            (t2, _, _) = self.scoped(lambda: self.result(e[3], []))
+            return render(out, ite(cond, t1, t2))
+        is_ok = e is not None and e[0] == "call" and e[1] == ("var", "Ok") and len(e[2]) == 1
+        is_err = e is not None and e[0] == "call" and e[1] == ("var", "Err") and len(e[2]) == 1
+        if is_err:
+            self.check_error_value(e[2][0])
+        if mut:
+            self_t = self.env["self"][0]
+            if ret == UNIT:
+                if e is not None:
+                    t, ty = self.expr(e, out)
+                    if ty != UNIT:
+                        raise ParseError("value returned from a () function")
+                return render(out, "Ok %s" % self.env["self"][0])
+            if is_ok:
+                if e[2][0] != ("tuple", []):
+                    raise ParseError("Ok(()) expected")
+                return render(out, "Ok (%s, true)" % self_t)
+            if is_err:
+                return render(out, "Ok (%s, false)" % self_t)
+            if e is None:
+                raise ParseError("missing result")
+            t, ty = self.expr(e, out)
+            if ty != ("result", UNIT):
+                raise ParseError("result of type %r in a Result<()> function" % (ty,))
+            return render(out, "Ok (%s, %s)" % (self.env["self"][0], t))
+        if e is None:
+            if ret != UNIT:
+                raise ParseError("missing result")
+            return render(out, "Ok tt")
+        if ret[0] == "result":
+            if is_ok:
+                t, ty = self.expr(e[2][0], out)
+                if ty != ret[1]:
+                    raise ParseError("Ok(..) of type %r, expected %r" % (ty, ret[1]))
+                return render(out, "Ok (Some %s)" % t)
+            if is_err:
+                return render(out, "Ok None")
+            t, ty = self.expr(e, out)
+            if ty != ret:
+                raise ParseError("result of type %r, expected %r" % (ty, ret))
+            return self.res_of(out, t)
+        if is_ok or is_err:
+            raise ParseError("Ok/Err in a function that does not return a Result")
+        t, ty = self.expr(e, out)
+        if ty != ret and not (ty[0] == "opt" and ret[0] == "opt" and (ty[1] is None or ty[1] == ret[1])):
+            raise ParseError("result of type %r, expected %r" % (ty, ret))
+        return self.res_of(out, t)
+
+    def body_term(self, stmts, tail, out=None):
+        out = [] if out is None else out
+        saved = dict(self.env)
+        try:
+            if self.stmts(stmts, out):
+                if tail is not None:
+                    raise ParseError("code after return")
+                return out.pop()[1]
+            if tail is not None and tail[0] == "if" and tail[3] is None:
+                if self.if_stmt(tail, out):
+                    raise ParseError("internal: if without else cannot return on both sides")
+                tail = None
+            return self.result(tail, out)
+        finally:
+            self.env = saved
+
+    def run(self, blk):
+        term = self.body_term(blk[1], blk[2])
+        # effect free: `let`s followed by `Ok <pure term>`, or a call of an effect-free generated function
+        lines = term.split("\n")
+        m = re.fullmatch(r"([A-Za-z_0-9]+) c [^;]*", lines[-1])
+        pure = all(l.startswith("let ") for l in lines[:-1]) and " <- " not in term and (
+            lines[-1].startswith("Ok ") or bool(
+                m and any(d["name"] == m.group(1) and d["pure"] for d in self.gen.done.values())))
+        ret = self.ret
+        if self.kind == "mut":
+            cty = coq_type(("struct", self.owner))
+            cty = "res %s" % cty if ret == UNIT else "res (%s * bool)" % cty
+        elif ret[0] == "result":
+            cty = "res (option %s)" % coq_type(ret[1])
+        else:
+            cty = "res %s" % coq_type(ret)
+        ps = []
+        if self.kind != "static":
+            ps.append("(self : %s)" % coq_type(("struct", self.owner)))
+        ps += ["(%s : %s)" % (coq_ident(n), coq_type(t)) for n, t in self.params]
+        text = "Definition %s_%s (c : cfg) %s: %s :=\n%s." % (
+            self.mod, self.name, "".join(p + " " for p in ps), cty, indent(term))
+        return text, pure
+
+
+METHODS_HEADER = """(* GENERATED by tools/translate.py from the loop-free methods of src/utils.rs, bit_vector.rs, rank9sel/inner.rs,
+   compact_vector.rs, wavelet_matrix.rs, darray.rs, elias_fano.rs -- do not edit.
+   Proofs/MethodsTie.v proves every definition equal to the hand-written model function. *)
+From Sucds Require Import Base.Res Spec.WordSpec Model.BitVector Model.Rank9 Model.DArray Model.EliasFano
+  Model.CompactVector gen.ConstsGen.
+Open Scope N_scope.
+
+(* usize::checked_add *)
+Definition checked_add (a b : N) : option N := if a + b <? W then Some (a + b) else None.
+"""
+
+
+def gen_methods(repo):
+    g = MethodsGen(repo)
+    defs = g.run()
+    return METHODS_HEADER + "\n" + "\n\n".join(defs) + "\n"
+
+
+
+# ---------------------------------------------------------------------------------------------
 # fingerprints
 # ---------------------------------------------------------------------------------------------
 
 def gen_fingerprints(repo):
+    """hash of the normalised token stream (comments, whitespace and the #[cfg(test)] module removed) of every
+    source file; used by ./check for change-directed depth: a property whose anchored files changed since the
+    models were written is searched with larger generators"""
     fp = {}
     for root, _, files in os.walk(os.path.join(repo, "src")):
         for f in sorted(files):
@@ -597,13 +1745,11 @@ def gen_fingerprints(repo):
             path = os.path.join(root, f)
             rel = os.path.relpath(path, repo)
             src = rp.strip_tests(open(path).read())
+            src = re.sub(r"^\s*//[/!].*$", "", src, flags=re.M)     # doc comments
             try:
-                for name, params, ret, body, off in rp.functions(src):
-                    key = "%s::%s@%d" % (rel, name, src[:off].count("\n"))
-                    h = hashlib.sha256(rp.normalized_tokens(params + " -> " + ret + " " + body).encode()).hexdigest()[:16]
-                    fp["%s::%s#%d" % (rel, name, sum(1 for k in fp if k.startswith("%s::%s#" % (rel, name))))] = h
+                fp[rel] = hashlib.sha256(rp.normalized_tokens(src).encode()).hexdigest()[:16]
             except ParseError as ex:
-                fp[rel] = "unparsed: %s" % ex
+                fp[rel] = "untokenizable: %s" % ex
     return json.dumps(fp, indent=1, sort_keys=True) + "\n"
 
 
@@ -623,10 +1769,11 @@ def main():
     repo = os.environ.get("VERIF_REPO", "/repo")
     here = os.path.dirname(os.path.dirname(os.path.abspath(__file__)))
     outdir = os.path.join(os.environ.get("VERIF_COQ_DIR") or os.path.join(here, "coq"), "gen")
-    which = sys.argv[1:] or ["broadword", "consts", "serial", "fingerprints"]
+    which = sys.argv[1:] or ["broadword", "consts", "serial", "methods", "fingerprints"]
     status = 0
     gens = {"broadword": ("BroadwordGen.v", gen_broadword), "consts": ("ConstsGen.v", gen_consts),
-            "serial": ("SerialGen.v", gen_serial), "fingerprints": ("fingerprints.json", gen_fingerprints)}
+            "serial": ("SerialGen.v", gen_serial), "methods": ("MethodsGen.v", gen_methods),
+            "fingerprints": ("fingerprints.json", gen_fingerprints)}
     for w in which:
         fname, fn = gens[w]
         try:
